@@ -34,10 +34,18 @@ theory atom equals its root formula.
                         `step + n`, set free — in exactly one call, the one of horizon `step + n`.  This is why `eqn` may read a
                         next formula as "the argument at `step + n` if that state exists, else the end-of-trace value" at every
                         horizon.
+  * `occurrences_equated` / `occurrences_follow` / `formula_literal_stable`  the link between the theory atoms of the program and the
+                        formula's literal (model `StepData` of `BodyFormula.translate` / `add_atom` / `StepData.add_literal`,
+                        TelModel/StepData.lean; the real methods are driven with random call sequences against the model): for
+                        every sequence of registrations of occurrence literals and translations of the (formula, step) pair —
+                        occurrences that turn up in a later `Theory.translate` call included (regrounded constraints with a primed
+                        atom and a `&tel` atom) — that ends with a translation, every registered occurrence is the formula's literal
+                        or has been made equivalent to it, nothing else is written, and the formula's literal never changes.
 -/
 import TelProofs.Tseitin
 import TelProofs.DocEq
 import TelProofs.Meta.DefExt
+import TelProofs.StepDataProofs
 import TelProofs.ClauseProofs
 import TelProofs.NextLifeProofs
 
@@ -134,5 +142,38 @@ theorem placeholder_life (n : Nat) (weak : Bool) (step h0 : Nat) (k : Nat) :
 /-- non-vacuity: `2 > p` first translated at step 0 when the horizon is 1 (reached through `< 2 > p` at step 1) -/
 example : (List.range 4).map (fun k => (life 2 false 0 1 k).2.2) =
     [.placeholder false 0, .resolve 2, .nothing, .nothing] := by decide
+
+/-! ### the theory atoms of the program and the literal of the formula -/
+
+/-- Every sequence of `add_atom` / `translate` calls on one (formula, step) pair that ends with a `translate`: the formula has
+    a literal; every occurrence literal registered so far is that literal or both clauses of their equivalence are written;
+    every constraint written is such a clause. -/
+theorem occurrences_equated (ops : List SDOp) (s : LitSource) :
+    ∃ l, (StepData.run {} (ops ++ [.translate s])).1.literal = some l ∧
+      (∀ a ∈ SD.added ops, a = l ∨ ∀ c ∈ makeEqual a l, SDOut.clause c ∈ (StepData.run {} (ops ++ [.translate s])).2) ∧
+      (∀ c, SDOut.clause c ∈ (StepData.run {} (ops ++ [.translate s])).2 → ∃ a ∈ SD.added ops, c ∈ makeEqual a l) :=
+  SD.occurrences_equated ops s
+
+/-- … so in every answer set each occurrence of the theory atom has the value of the formula's literal -/
+theorem occurrences_follow (ops : List SDOp) (s : LitSource) (v : Nat → Bool)
+    (hv : ∀ c, SDOut.clause c ∈ (StepData.run {} (ops ++ [.translate s])).2 → Clause.ok v c = true) :
+    ∃ l, (StepData.run {} (ops ++ [.translate s])).1.literal = some l ∧
+      ∀ a ∈ SD.added ops, a ≠ 0 → l ≠ 0 → litTrue v a = litTrue v l :=
+  SD.occurrences_follow ops s v hv
+
+/-- the literal of a (formula, step) pair is fixed by the first translation -/
+theorem formula_literal_stable (ops : List SDOp) (d : StepData) (l : Int) (h : d.literal = some l) :
+    (d.run ops).1.literal = some l :=
+  SD.literal_stable ops d l h
+
+/-- an occurrence that is registered after the pair has been translated (a later `Theory.translate` call) is equated by the
+    next translation: registrations 5, translation (5 becomes the representative), registration 7, translation -/
+example : (StepData.run {} [.addAtom 5, .translate (.own 9), .addAtom 7, .translate (.own 10)]).1.literal = some 5 ∧
+    (StepData.run {} [.addAtom 5, .translate (.own 9), .addAtom 7, .translate (.own 10)]).2 =
+      [.clause [5, -5], .clause [-5, 5], .clause [7, -5], .clause [-7, 5]] := by decide
+
+/-- without registered occurrences `add_literal` takes a fresh atom under a choice rule -/
+example : (StepData.run {} [.translate (.own 9), .addAtom 7, .translate (.own 10)]).2 =
+    [.choice 9, .clause [7, -9], .clause [-7, 9]] := by decide
 
 end TelProofs.C03
